@@ -8,6 +8,7 @@
 From Coq Require Import ZArith List Bool.
 From BV Require Import Lib.Cases Model.LaxSem Model.Restart Model.Pool
      Proofs.PoolJobs Proofs.PoolInv Proofs.PoolCor.
+From BV Require Import Proofs.PoolHist.
 From BV Require Import Model.PoolSys Proofs.PoolSysProofs.
 From BV Require Gen.G_pool_shape.
 Import ListNotations.
@@ -96,6 +97,31 @@ Theorem C01_put_failure_resolves : forall s j x i k,
               /\ sem (fst (fst (feed_tasks 1 i j k (Some k) false s))) = LaxSem.release (sem s).
 Proof. exact put_failure_resolves. Qed.
 Print Assumptions C01_put_failure_resolves.
+
+(* ---- map_async handles (every history; the length of a real input is never negative):
+   callbacks together at most once, nothing before resolution, a resolved handle has left the
+   cache (so late results cannot touch it), and its outcome and callback counts are the same in
+   every continuation; an empty map is resolved from the start and runs no callback *)
+Theorem C01_map_callbacks_at_most_once : forall c tr j x,
+    get_job (run c tr) j = Some x -> kind x = KMap -> 0 <= mlen x ->
+    0 <= cb_succ x /\ 0 <= cb_err x /\ cb_succ x + cb_err x <= 1
+    /\ (ready x = false -> cb_succ x = 0 /\ cb_err x = 0 /\ value x = None)
+    /\ (ready x = true -> incache x = false).
+Proof. exact map_callbacks_at_most_once. Qed.
+Print Assumptions C01_map_callbacks_at_most_once.
+
+Theorem C01_map_outcome_stable : forall c tr tr' j x,
+    get_job (run c tr) j = Some x -> kind x = KMap -> 0 <= mlen x -> ready x = true ->
+    exists y, get_job (run c (tr ++ tr')) j = Some y /\ kind y = KMap /\ ready y = true
+              /\ value y = value x /\ cb_succ y = cb_succ x /\ cb_err y = cb_err x.
+Proof. exact map_outcome_stable. Qed.
+Print Assumptions C01_map_outcome_stable.
+
+Theorem C01_empty_map : forall c tr j x,
+    get_job (run c tr) j = Some x -> kind x = KMap -> mlen x = 0 ->
+    ready x = true /\ incache x = false /\ value x = None /\ cb_succ x = 0 /\ cb_err x = 0.
+Proof. exact empty_map. Qed.
+Print Assumptions C01_empty_map.
 
 (* ---- completion (the liveness half), for the closed system in which nothing goes wrong:
    Model/PoolSys.v composes the pool model with a client making [n] apply_async calls (and
